@@ -160,3 +160,41 @@ def vary_history(rng, S, d, variant=None):
         warm(X); X.invert()
         return X, v
     return S, v
+
+
+def warm_transform(rng, S, d, others=(), force_reflect=False):
+    """warm every cache of S (and of `others`, transformed along), then apply a random exact orientation-preserving in-place
+    transformation sequence WITHOUT undoing it.  Returns (S, transformed description, map on points).  Stale per-object state
+    (cached area / box / length / derivative of the shape or of its sub-shapes and curves) shows up against the description."""
+    probe = (F(1, 3), F(2, 7))
+
+    def warm(X):
+        float(X); X.box(); probe in X
+        for j in X.jordans:
+            float(j); j.box()
+        for sub in getattr(X, "subshapes", ()):
+            float(sub); sub.box(); probe in sub
+    seq = []
+    for _ in range(rng.randint(1, 3)):
+        k = rng.random()
+        if k < 0.4:
+            seq.append(("move", F(rng.randint(-12, 12), rng.choice([1, 2])), F(rng.randint(-12, 12))))
+        elif k < 0.8:
+            seq.append(("scale", F(rng.choice([1, 2, 3, 5]), rng.choice([1, 2, 3])), F(rng.choice([1, 2, 3]), rng.choice([1, 2]))))
+        else:
+            kk = F(rng.choice([-3, -2, -1]), rng.choice([1, 2]))
+            seq.append(("scale", kk, kk))
+    if force_reflect:
+        kk = F(rng.choice([-3, -2, -1]), rng.choice([1, 2]))
+        seq.append(("scale", kk, kk))          # a point reflection: orientation is preserved, every cached signed quantity must follow
+    for X in (S,) + tuple(others):
+        warm(X)
+        for t in seq:
+            (X.move if t[0] == "move" else X.scale)(t[1], t[2])
+            warm(X)
+
+    def T(p):
+        for t in seq:
+            p = (p[0] + t[1], p[1] + t[2]) if t[0] == "move" else (p[0] * t[1], p[1] * t[2])
+        return p
+    return S, map_desc(d, T), T, seq
